@@ -24,6 +24,8 @@ from common import Undecided
 # --------------------------------------------------------------------------------------------
 # type mapping
 
+STD_STREAMS = {"std::ifstream", "std::ofstream", "std::fstream", "std::stringstream", "std::istringstream", "std::ostringstream",
+               "std::basic_ios<char>", "std::basic_ostream<char>", "std::basic_istream<char>"}
 STD_STRING = ("std::basic_string<char>", "std::string", "std::__cxx11::basic_string<char>",
               "std::basic_string<char, std::char_traits<char>, std::allocator<char>>")
 
@@ -131,8 +133,14 @@ class Types:
             return SCALARS[t]
         if t in STD_STRING or t.startswith("std::basic_string<char"):
             return self.STR
+        if t in STD_STREAMS or re.match(r"std::basic_(i|o|io|if|of|f|stringst|istringst|ostringst)(stream|ream|buf|filebuf|streambuf)?<char", t):
+            # file / string streams: an opaque environment value (models/base.h: vstream) - whether the
+            # file opens and what it contains are unconstrained
+            return "vstream"
         if t.endswith("*"):
             inner = _strip(t[:-1])
+            if re.match(r"std::basic_(streambuf|filebuf|stringbuf)<char", inner) or inner.endswith("::__filebuf_type") or inner.endswith("::__streambuf_type"):
+                return "vstream"
             if inner.startswith("libcellml::") and inner not in self.aliases:
                 return "ref"
             if inner in self.records:
@@ -274,6 +282,7 @@ class Unit:
         self.field_decls = {}     # F_name -> FieldDecl
         self.rec_stubs = set()    # functions whose self-recursive calls go to the contract stub <name>__rec
         self.sid_lits = {}        # literal text -> id
+        self.proto_sig = {}       # cname of a referenced (not lowered) function -> demangled signature
 
     # ---- naming ---------------------------------------------------------------------------
     def add_tu(self, tu):
@@ -1274,6 +1283,13 @@ class FunctionLowerer:
             if len(args) == 1:
                 return self.expr(args[0])
             self.bad(n, "pointer constructor")
+        if ct == "vstream":
+            if not args:
+                return "vstream_new()"
+            if len(args) == 1 and self.T._ctype(self.T.qt(args[0]["type"])) == self.T.STR:
+                self.expr(args[0])
+                return "vstream_open()"
+            self.bad(n, "stream constructor")
         if not args:
             return "%s_new()" % ct
         if len(args) == 1:
@@ -1346,6 +1362,7 @@ class FunctionLowerer:
         rt = fl.ret_ctype()
         ps = fl.params()
         self.u.protos[cn] = "%s %s(%s)\n__FC_%s;" % (rt, cn, ", ".join("%s %s" % p for p in ps) or "void", cn)
+        self.u.proto_sig[cn] = d.get("_sig")
 
     def std_call(self, n, name, args):
         q = self.T.qt(n["type"])
@@ -1377,6 +1394,14 @@ class FunctionLowerer:
             it = self.T.ctype(args[0]["type"])
             self.T.used.setdefault("iota_" + it, "IOTA_DECL(%s)" % it)
             return "%s_iota(%s, %s, %s)" % (it, self.expr(args[0]), self.expr(args[1]), self.expr(args[2]))
+        if name in ("begin", "end", "cbegin", "cend") and len(args) == 1:
+            ct = self.T.ctype(args[0]["type"])
+            self.T.ctype(n["type"])        # registers the iterator type
+            return "%s_%s(&(%s))" % (ct, name, self.lvalue(args[0]))
+        if name == "reverse" and len(args) == 2:
+            it = self.T.ctype(args[0]["type"])
+            self.T.used.setdefault("reverse_" + it, "REVERSE_DECL(%s)" % it)
+            return "%s_reverse(%s, %s)" % (it, self.expr(args[0]), self.expr(args[1]))
         if name == "copy" and len(args) == 3:
             bi = _strip_transparent(_strip_casts(args[2]))
             if bi.get("kind") == "CallExpr" and (_strip_casts(bi["inner"][0]).get("referencedDecl") or {}).get("name") == "back_inserter":
@@ -1583,6 +1608,19 @@ class FunctionLowerer:
             if name == "reset" and not a:
                 return "%s = (ref)0" % oe
             self.bad(n, "smart pointer member %s (weak=%s)" % (name, weak))
+        if oct_ == "vstream":
+            oe = self.expr(obj)
+            if name in ("good", "is_open") and not a:
+                return "vstream_good(%s)" % oe
+            if name in ("fail", "bad") and not a:
+                return "(!vstream_good(%s))" % oe
+            if name == "rdbuf" and not a:
+                return oe
+            if name == "str" and not a:
+                return "vstream_str_%s(%s)" % (self.T.STR, oe)
+            if name == "close" and not a:
+                return "((void)0)"
+            self.bad(n, "stream member %s" % name)
         if deref:
             call = "%s_%s(%s%s)" % (oct_, name, self.expr(obj), "".join(", " + v for v in av))
             self.note_call("std::%s::%s" % (oct_, name))
@@ -1664,6 +1702,11 @@ class FunctionLowerer:
             return "%s = %s" % (lhs, self.expr(args[1]))
         if op == "operator[]" and len(args) == 2:
             lv = self.lvalue_or_none(args[0])
+            if lv is None and a0t.startswith("vvec_"):
+                # f()[i]: the temporary lives for the full expression; its element is read as a value
+                t = self.newtmp()
+                self.note_call("std::%s::operator[]" % a0t)
+                return "({ %s %s = %s; VEC_INDEX(%s, &%s, %s); })" % (a0t, t, self.expr(args[0]), a0t, t, self.expr(args[1]))
             if lv is None:
                 self.bad(n, "operator[] on temporary")
             self.note_call("std::%s::operator[]" % a0t)
@@ -1687,6 +1730,10 @@ class FunctionLowerer:
             if a1t == "char":
                 return "%s_push_back(&(%s), %s)" % (self.T.STR, self.lvalue(args[0]), rhs)
             return "%s_append_s(&(%s), %s)" % (self.T.STR, self.lvalue(args[0]), rhs)
+        if op == "operator<<" and a0t == "vstream" and len(args) == 2:
+            a1t = self.T._ctype(self.T.qt(args[1]["type"]))
+            if a1t == "vstream":
+                return "vstream_put(&(%s), %s)" % (self.lvalue(args[0]), self.expr(args[1]))
         if op in ("operator<", "operator>", "operator<=", "operator>=") and a0t.startswith("vit_"):
             return "%s.i %s %s.i" % (self.paren(args[0]), op[8:], self.paren(args[1]))
         self.bad(n, "overloaded %s on %s" % (op, a0t))
